@@ -65,3 +65,40 @@ def c06_guard(run, harnesses):
             name = f"{suite}_guard_{side}"
             reqs, impls, models = run.run_stream(h, name, suite=suite, count=cnt, timeout=9000)
             run.judge_stream(h, name, judge, reqs, impls, models)
+
+
+BIGSTEP = [
+    # single steps of more than 2^29 cells (8-bit cells: address space only, the pages are never touched)
+    "mem 8 w0:1 a0:536871912 c536871911 c536871000 r0 w536871900:7 r536871900 r0 c536871912",
+    "mem 8 w5:9 m600000000 w0:3 r0 r-599999995 c0 a-5:5 c-5 c4 m-600000000 r5",
+    "mem 8 w0:1 a-536872000:1 c-536871999 c-536872000 r0 w-536871990:4 r-536871990 r0",
+    "mem 8 w0:2 a0:1073741900 c1073741899 w1073741890:5 r1073741890 r0",
+]
+
+
+def c09_bigstep(run, harnesses):
+    """Call histories with a single step beyond 2^29 cells, run on the real `Memory` only: the Lean model keeps the
+    buffer as an `Array` and cannot execute them, so these are judged by the harness's own property-level oracle
+    (a range made accessible checks true at both ends and on its first 64 cells; reads return the last value
+    written to that logical cell or 0; reads never change the layout) — an oracle failure is a violation with the
+    history as its replay."""
+    h = harnesses.get("debug") or list(harnesses.values())[0]
+    d = os.path.join(run.work, "c09_bigstep")
+    os.makedirs(d, exist_ok=True)
+    rq = os.path.join(d, "bigstep_input.txt")
+    open(rq, "w").write("\n".join(BIGSTEP) + "\n")
+    rc, out = h.replay("big", rq, d, timeout=300)
+    impls = read_lines(os.path.join(d, "big.impl")) if rc == 0 else []
+    fails = []
+    if rc != 0 or len(impls) != len(BIGSTEP):
+        fails.append((BIGSTEP[0], f"harness replay of the big-step histories ended with rc={rc}, {len(impls)} replies: {out[-200:]!r}"))
+    for r, i in zip(BIGSTEP, impls):
+        run.evaluations += 1
+        run.nontrivial.add(r)
+        if "ORACLE-FAIL" in i:
+            fails.append((r, f"{r}: " + i[i.index("ORACLE-FAIL"):][:300]))
+    run.samples.append({"stream": "c09_bigstep", "request": BIGSTEP[0], "reply": (impls[0][:200] if impls else "")})
+    run.oblige(f"oracle stream c09_bigstep: {len(BIGSTEP)} histories with single steps beyond 2^29 cells satisfy the shadow-map oracle",
+               not fails, fails[0][1][:300] if fails else "")
+    for r, f in fails[:3]:
+        run.violations.append(dict(what=f, stream="c09_bigstep", request=r, impl="", model="", found=True, key="bigstep"))
